@@ -21,9 +21,17 @@ import numpy as np
 ID = "C07"
 RULE = ("every row of every readable shipped set (exhaustive on the real code; the Lean model on all rows of the sets "
         "below a size cap and on a seeded sample of the larger ones); a sweep of requested angles (table angles, exact "
-        "midpoints and their float neighbours, integers, random, degenerate); random unit quaternions; random Euler "
-        "triples and conventions away from gimbal lock; a grid of cone parameters; QR branch for dim 2,3,4; covering "
-        "search per set. distinct = distinct (kind, parameters) cases; identity/trivial inputs are not counted")
+        "midpoints and their float neighbours, integers, random, degenerate) given as Python and numpy scalars, "
+        "positionally / by keyword; sessions of requests in one process whose results are overwritten by the caller "
+        "between calls (also from another working directory); random unit quaternions in every memory layout "
+        "(C, Fortran, strided, negative stride, column views, transposed, offset, read-only, memmap, big-endian) and "
+        "dtype (float64, float32, integers), batches of 0, 1 and more than 10 000 rows, half turns and near-identity "
+        "rotations; random Euler triples in all 24 conventions away from gimbal lock, handed over as tuple / list / "
+        "float64 / float32 / integer arrays, matrices in every layout and as 2x2 planar rotations; a grid of cone "
+        "parameters (sampling coarser than the cone, axis sampling coarser than the axis range, zero axis range, "
+        "integer and numpy scalar arguments, the default axis given explicitly in several containers, > 10 000 "
+        "rotations); QR branch for dim 2..5; covering search per set. distinct = distinct (kind, parameters) cases; "
+        "identity/trivial inputs are not counted")
 ASSUMPTIONS = [
     "the four rotation-set files emptied in this sandbox (size 0) are skipped and reported as skipped",
     "SO(3) covering is only searched numerically (dense sampling + local maximisation); no theorem carries it",
@@ -43,6 +51,10 @@ TOL_CONV = 1e-7        # real vs scipy quaternion matrix
 TOL_E32 = 2e-6         # float32 matrices from Euler angles
 TOL_DEG = 5e-3         # Euler angles (float32, |b| ≤ 85°)
 TOL_CONE = 1e-9
+# float32 quaternions: every entry of the matrix is a handful of float32 operations on O(1) numbers
+# (<= ~10 eps32 = 6e-7 per entry, six products per inner product of two columns)
+TOL_Q32 = 2e-6         # entry of the matrix: real vs model / scipy for float32 input
+TOL_ORTHO32 = 1e-5     # |R^T R - 1|, |det - 1| for float32 input
 COVER_REL, COVER_ABS = 1.002, 0.02   # failing orientation only if farther than angle*REL + ABS degrees
 
 # sha256 of the shipped set files the row checks / covering searches were established on
@@ -77,6 +89,78 @@ def a2b(a):
 
 def b2a(l):
     return np.array(l, dtype=np.uint64).view(np.float64)
+
+
+LAYOUTS = ["C", "F", "strided", "reversed", "colview", "colstride", "transposed", "offset", "readonly", "memmap",
+           "bigendian"]
+_MM = [0]
+
+
+def _relayout(a, layout):
+    """the same values in another memory layout (always a fresh buffer, never the caller's)"""
+    a = np.array(a)
+    n = a.shape[0] if a.ndim else 0
+    if layout == "C":
+        return np.ascontiguousarray(a)
+    if layout == "F":
+        return np.asfortranarray(a)
+    if layout == "strided":        # every second row of a larger array
+        big = np.full((2 * n + 1,) + a.shape[1:], 7, dtype=a.dtype)
+        big[1::2] = a
+        return big[1::2]
+    if layout == "reversed":       # negative stride along the first axis
+        return np.ascontiguousarray(a[::-1])[::-1]
+    if layout == "colview":        # leading columns of a wider array (how the lookup slices quat_weights[:, :4])
+        big = np.full(a.shape[:-1] + (a.shape[-1] + 3,), 7, dtype=a.dtype)
+        big[..., :a.shape[-1]] = a
+        return big[..., :a.shape[-1]]
+    if layout == "colstride":      # every second column of a wider array
+        big = np.full(a.shape[:-1] + (2 * a.shape[-1],), 7, dtype=a.dtype)
+        big[..., ::2] = a
+        return big[..., ::2]
+    if layout == "transposed":     # transposed view of the transposed copy
+        return np.ascontiguousarray(a.T).T
+    if layout == "offset":         # view starting inside a larger buffer
+        buf = np.full(a.size + 3, 7, dtype=a.dtype)
+        v = buf[3:].reshape(a.shape)
+        v[...] = a
+        return v
+    if layout == "readonly":
+        b = np.ascontiguousarray(a)
+        b.setflags(write=False)
+        return b
+    if layout == "memmap":
+        from pv import env
+        _MM[0] += 1
+        path = os.path.join(env.scratch(), "c07_mm_%d_%d.bin" % (os.getpid(), _MM[0]))
+        if a.size == 0:
+            return np.ascontiguousarray(a)
+        m = np.memmap(path, dtype=a.dtype, mode="w+", shape=a.shape)
+        m[...] = a
+        m.flush()
+        del m
+        return np.memmap(path, dtype=a.dtype, mode="r", shape=a.shape)
+    if layout == "bigendian":
+        return a.astype(a.dtype.newbyteorder(">"))
+    raise ValueError(layout)
+
+
+def _file_backed(a):
+    """is this array (or what it is a view of) a memory map of a file?"""
+    for _ in range(8):
+        if a is None:
+            return False
+        if isinstance(a, np.memmap) or type(a).__name__ == "mmap":
+            return True
+        a = getattr(a, "base", None)
+    return False
+
+
+def _scribble(*arrays):
+    """what a caller may do with a returned array: overwrite it (never through to a file)"""
+    for a in arrays:
+        if isinstance(a, np.ndarray) and not _file_backed(a) and a.flags.writeable:
+            a[...] = 9 if a.dtype.kind in "iu" else np.nan
 
 
 def _eye_err(R):
@@ -130,12 +214,14 @@ class Sets:
             self._ref[name] = Rotation.from_quat(q[:, [1, 2, 3, 0]]).as_matrix()
         return self._ref[name]
 
-    def closest_exact(self, req):
+    def closest_exact(self, req, rel=None):
         """names of the sets whose nominal angle is closest to the request, exact arithmetic (ties: all of them)"""
         r = Fraction(req)
         d = {k: abs(r - a) for k, a in self.exact.items()}
         m = min(d.values())
         slack = Fraction(1, 10**9) + abs(r) / 10**15      # the code compares rounded doubles
+        if rel is not None:                               # ... or rounded singles (float32 request under NEP 50)
+            slack += Fraction(rel) * (abs(r) + 100)
         return [k for k, v in d.items() if v <= m + slack], m
 
 
@@ -192,8 +278,8 @@ def _case_setrows(ctx, case):
     ctx.spec("row count = documented size", inp, shape_ok, {"shape": a.shape, "documented": n_doc}, key="rows:count")
     if a.ndim != 2 or a.shape[1] < 4 or a.shape[0] == 0:
         return
-    q = np.asarray(a[:, :4], dtype=np.float64)
-    R = mu.quaternion_to_rotation_matrix(q)
+    q = np.array(a[:, :4], dtype=np.float64)                 # pristine values (the reference never leaves the harness)
+    R = mu.quaternion_to_rotation_matrix(np.array(a)[:, :4])  # a fresh buffer, sliced the way the lookup slices it
     ctx.evaluations += 4 * len(q)          # the four row-wise clauses below are evaluated on every row
     # unit norm
     dev = np.abs(np.sqrt((q * q).sum(axis=1)) - 1)
@@ -247,13 +333,70 @@ def _identify(R, S):
     return None
 
 
-def _case_request(ctx, case):
-    """get_rotation_matrices(angular_sampling) for one request"""
-    import tme.matching_utils as mu
-    S = sets()
+_REQ_TYPES = {"np.float64": np.float64, "np.float32": np.float32, "np.int64": np.int64, "np.int32": np.int32}
+_REQ_CALLS = ["positional", "keyword", "all-positional", "all-keyword", "np-dim"]
+
+
+def _request_arg(case):
+    """the request as the caller hands it over, and its exact value as a Python number"""
     req = case["angle"]
     req = int(req) if case.get("int") else float(req)
-    inp = {"kind": "request", "angle": req, "int": bool(case.get("int"))}
+    t = case.get("type")
+    if t:
+        arg = _REQ_TYPES[t](req)
+        req = int(arg) if t.startswith("np.int") else float(arg)     # the value after the dtype's rounding
+    else:
+        arg = req
+    return arg, req
+
+
+def _request_call(mu, arg, how):
+    if how in (None, "positional"):
+        return mu.get_rotation_matrices(arg)
+    if how == "keyword":
+        return mu.get_rotation_matrices(angular_sampling=arg)
+    if how == "all-positional":
+        return mu.get_rotation_matrices(arg, 3, True)
+    if how == "all-keyword":
+        return mu.get_rotation_matrices(use_optimized_set=True, dim=3, angular_sampling=arg)
+    if how == "np-dim":
+        return mu.get_rotation_matrices(arg, dim=np.int64(3))
+    raise ValueError(how)
+
+
+def _case_request(ctx, case):
+    """get_rotation_matrices(angular_sampling) for one request"""
+    inp = {"kind": "request", "angle": case["angle"], "int": bool(case.get("int"))}
+    for k in ("type", "call"):
+        if case.get(k):
+            inp[k] = case[k]
+    _request_core(ctx, case, inp)
+
+
+def _case_session(ctx, case):
+    """several requests in one process; between them the caller overwrites what it was given (and may change
+    the working directory): every answer must still be the closest set, proper, identity first"""
+    from pv import env
+    steps = case["steps"]
+    here = os.getcwd()
+    try:
+        for i, st in enumerate(steps):
+            if st.get("cwd"):
+                os.chdir(env.scratch())
+            inp = {"kind": "session", "steps": steps, "failing_step": i}
+            _request_core(ctx, st, inp, scribble=True)
+            if st.get("cwd"):
+                os.chdir(here)
+    finally:
+        os.chdir(here)
+    ctx.count("session:steps", len(steps))
+    ctx.distinct(("session", repr(steps)))
+
+
+def _request_core(ctx, case, inp, scribble=False):
+    import tme.matching_utils as mu
+    S = sets()
+    arg, req = _request_arg(case)
     table = [[k, n, f2b(a)] for k, n, a in S.table]
     model = ctx.driver.call("c07.closest", table=table, req=f2b(req))
     if isinstance(model, str):
@@ -261,13 +404,17 @@ def _case_request(ctx, case):
         return
     mname, mn = model
     # a non-finite request is equally far from every set
-    best, _ = S.closest_exact(req) if math.isfinite(req) else ([k for k, _, _ in S.table], None)
+    rel = Fraction(1, 10**6) if case.get("type") == "np.float32" else None
+    best, _ = S.closest_exact(req, rel) if math.isfinite(req) else ([k for k, _, _ in S.table], None)
+    quat = weights = None
     try:
-        R = mu.get_rotation_matrices(req)
-        quat, weights, rep = mu.load_quaternions_by_angle(req)
+        R = _request_call(mu, arg, case.get("call"))
+        quat, weights, rep = mu.load_quaternions_by_angle(arg)
         raised = None
     except Exception as e:
         R, raised = None, type(e).__name__
+    ctx.count("request:type=" + (case.get("type") or ("int" if case.get("int") else "float")))
+    ctx.count("request:call=" + (case.get("call") or "positional"))
     if S.state[mname] != "ok":
         # the set the request resolves to is emptied / unreadable here
         ctx.count("request:skipped-" + S.state[mname].split(":")[0])
@@ -280,6 +427,7 @@ def _case_request(ctx, case):
         ctx.agree("get_rotation_matrices: chosen set", inp, "raised:" + raised, mname)
         ctx.spec("request served from the closest set", inp, False, {"raised": raised, "closest": best}, key="request:raised")
         return
+    R_ret = R
     R = np.asarray(R)
     sizes = {n: k for k, n, a in S.table}       # the documented sizes are pairwise distinct (Lean: shipped_table_sane)
     by_content = _identify(R, S)
@@ -305,6 +453,7 @@ def _case_request(ctx, case):
                  {"ortho_err": oe[i], "det_err": de[i], "R": R[i]}, key="request:proper")
         ctx.spec("first member is the identity", inp, bool(np.array_equal(R[0], np.eye(3))), {"R0": R[0]}, key="request:identity-first")
     # the lookup called directly: a closest set, its rows, and its nominal angle reported (weights: not in the property)
+    quat_ret = quat
     quat = np.asarray(quat)
     lk = sizes.get(len(quat)) if quat.ndim == 2 else None
     ctx.spec("lookup picks a set whose nominal angle is closest to the request", inp, lk is not None and lk in best,
@@ -318,31 +467,71 @@ def _case_request(ctx, case):
                  {"reported": rep, "set": lk, "nominal": S.meta[lk][1], "size": S.meta[lk][0]}, key="lookup:reported-angle")
     ctx.count("request:set=" + str(got))
     ctx.count("request:tie" if len(best) > 1 else "request:unique")
-    if got != "c48u1.npy" or 50 < req < 80:
-        ctx.distinct(("request", repr(req)))
+    if inp.get("kind") == "request" and (got != "c48u1.npy" or 50 < req < 80):
+        ctx.distinct(("request", repr(req), case.get("type"), case.get("call")))
     if case.get("sample"):
         ctx.sample({**inp, "chosen": got, "returned": len(R), "model": model})
+    if scribble:
+        _scribble(R_ret, quat_ret, weights)
+
+
+_QDT = {"f8": np.float64, "f4": np.float32, "i8": np.int64, "i4": np.int32, "i1": np.int8}
 
 
 def _case_quat(ctx, case):
-    """quaternion_to_rotation_matrix on arbitrary quaternions (unit: all clauses; non-unit: model only)"""
+    """quaternion_to_rotation_matrix on arbitrary quaternions (unit: all clauses; non-unit: model only), handed over
+    in the dtype / memory layout of the case.  All clauses are evaluated against a pristine copy of the values."""
     import tme.matching_utils as mu
     from scipy.spatial.transform import Rotation
-    q = np.asarray(case["q"], dtype=np.float64).reshape(-1, 4)
+    dt, layout = case.get("dtype", "f8"), case.get("layout", "C")
     unit = bool(case.get("unit", True))
-    inp = {"kind": "quat", "q": q, "unit": unit}
-    R = np.asarray(mu.quaternion_to_rotation_matrix(q))
-    m = b2a(ctx.driver.call("c07.quatRows", rows=a2b(q))).reshape(len(q), 3, 3)
+    if "gen_seed" in case:                         # large batches are regenerated from their seed (also on replay)
+        q = _unit_quats(np.random.default_rng(int(case["gen_seed"])), int(case["n"]))
+        inp = {"kind": "quat", "gen_seed": int(case["gen_seed"]), "n": int(case["n"])}
+    else:
+        q = np.asarray(case["q"], dtype=np.float64).reshape(-1, 4)
+        inp = {"kind": "quat", "q": q}
+    arg = _relayout(q.astype(_QDT[dt]), layout)
+    q = np.array(arg, dtype=np.float64)            # the values actually handed over
+    inp.update({"unit": unit, "dtype": dt, "layout": layout})
+    f32 = dt == "f4"
+    tol_m, tol_c, tol_o = (TOL_Q32, TOL_Q32, TOL_ORTHO32) if f32 else (TOL_MODEL_Q, TOL_CONV, TOL_ORTHO)
+    ctx.count(f"quat:dtype={dt}")
+    ctx.count(f"quat:layout={layout}")
+    ctx.count("quat:batch=" + ("0" if len(q) == 0 else "1" if len(q) == 1 else ">10000" if len(q) > 10000 else "2..10000"))
+    try:
+        R = np.asarray(mu.quaternion_to_rotation_matrix(arg))
+    except Exception as e:
+        ctx.agree("quaternion_to_rotation_matrix", inp, "raised:" + type(e).__name__, "returned")
+        if unit:
+            ctx.spec("unit quaternions are converted (whatever their dtype / memory layout)", inp, False,
+                     {"raised": type(e).__name__, "message": str(e)[:200]}, key="quat:raised")
+        return
+    if R.shape != (len(q), 3, 3):
+        ctx.agree("quaternion_to_rotation_matrix: shape", inp, list(R.shape), [len(q), 3, 3])
+        if unit:
+            ctx.spec("one 3x3 matrix per quaternion", inp, False, {"shape": R.shape}, key="quat:shape")
+        return
+    if len(q) == 0:
+        ctx.count("quat:empty-batch")
+        return
+    m = np.concatenate([b2a(ctx.driver.call("c07.quatRows", rows=a2b(q[s0:s0 + 4000]))).reshape(-1, 3, 3)
+                        for s0 in range(0, len(q), 4000)])
     scale = max(1.0, float(np.abs(m).max()))
-    ctx.agree("quaternion_to_rotation_matrix", inp, R, m, eq=lambda a, b: bool(np.abs(np.array(a) - np.array(b)).max() <= TOL_MODEL_Q * scale))
+    ctx.agree("quaternion_to_rotation_matrix", inp, R if len(q) <= 16 else [], m if len(q) <= 16 else [],
+              eq=lambda a, b: bool(np.abs(R - m).max() <= tol_m * scale))
     if unit:
         oe, de = _eye_err(R)
-        ctx.spec("orthonormal, det +1", inp, bool(oe.max() <= TOL_ORTHO and de.max() <= TOL_ORTHO), {"R": R}, key="quat:proper")
+        i = int(np.argmax(np.maximum(oe, de)))
+        ctx.spec("orthonormal, det +1", {**inp, "row": i, "q_row": q[i]}, bool(oe[i] <= tol_o and de[i] <= tol_o),
+                 {"R": R[i], "ortho_err": oe[i], "det_err": de[i]}, key="quat:proper")
         ref = Rotation.from_quat(q[:, [1, 2, 3, 0]]).as_matrix()
-        ctx.spec("quaternion convention = standard (scipy)", inp, bool(np.abs(ref - R).max() <= TOL_CONV),
-                 {"R": R, "ref": ref}, key="quat:convention")
+        ce = np.abs(ref - R).reshape(len(q), -1).max(axis=1)
+        i = int(np.argmax(ce))
+        ctx.spec("quaternion convention = standard (scipy)", {**inp, "row": i, "q_row": q[i]}, bool(ce[i] <= tol_c),
+                 {"R": R[i], "ref": ref[i], "err": ce[i]}, key="quat:convention")
         # homomorphism on the real code: R(p·q) = R(p) R(q)
-        if len(q) >= 2:
+        if len(q) >= 2 and not f32 and dt == "f8":
             p, r = q[0], q[1]
             pr = np.array([p[0] * r[0] - p[1] * r[1] - p[2] * r[2] - p[3] * r[3],
                            p[0] * r[1] + p[1] * r[0] + p[2] * r[3] - p[3] * r[2],
@@ -352,7 +541,7 @@ def _case_quat(ctx, case):
             ctx.spec("quaternion product ↦ matrix product", inp, bool(np.abs(Rp - R[0] @ R[1]).max() <= 1e-7),
                      {"err": float(np.abs(Rp - R[0] @ R[1]).max())}, key="quat:homomorphism")
         ctx.count("quat:unit", len(q))
-        ctx.distinct(("quat", q.round(6).tolist()))
+        ctx.distinct(("quat", dt, layout, len(q), q[:4].round(6).tolist()))
     else:
         ctx.count("quat:non-unit(model only)", len(q))
 
@@ -379,15 +568,57 @@ def _ang_diff(a, b):
     return float(np.abs(d).max())
 
 
+_CONTAINERS = ["tuple", "list", "f8", "f4", "int"]
+
+
+def _container(ang, kind):
+    """the angles as the caller hands them over, and their values after the container's rounding"""
+    if kind in (None, "tuple"):
+        return tuple(ang), list(ang)
+    if kind == "list":
+        return list(ang), list(ang)
+    if kind == "f8":
+        return np.array(ang, dtype=np.float64), list(ang)
+    if kind == "f4":                       # what Orientations / backend arrays hold
+        a = np.array(ang, dtype=np.float32)
+        return a, [float(x) for x in a]
+    if kind == "int":                      # whole degrees given as integers
+        a = [int(round(x)) for x in ang]
+        return tuple(a), [float(x) for x in a]
+    raise ValueError(kind)
+
+
 def _case_euler(ctx, case):
-    """euler_to_rotationmatrix / euler_from_rotationmatrix for one (convention, angles)"""
+    """euler_to_rotationmatrix / euler_from_rotationmatrix for one (convention, angles); the angles in the
+    container of the case, the matrix handed back in the dtype / memory layout of the case"""
     import tme.matching_utils as mu
     seq = case["seq"]
-    ang = [float(x) for x in case["angles"]]
-    inp = {"kind": "euler", "seq": seq, "angles": ang}
-    R = np.asarray(mu.euler_to_rotationmatrix(tuple(ang), convention=seq))
+    cont, mdt, mlay = case.get("container"), case.get("mdtype", "f4"), case.get("mlayout", "C")
+    arg, ang = _container([float(x) for x in case["angles"]], cont)
+    inp = {"kind": "euler", "seq": seq, "angles": [float(x) for x in case["angles"]]}
+    if cont:
+        inp["container"] = cont
+    if mdt != "f4" or mlay != "C":
+        inp.update({"mdtype": mdt, "mlayout": mlay})
+    if case.get("canonical"):
+        inp["canonical"] = True
+    ctx.count("euler:container=" + (cont or "tuple"))
+    try:
+        if seq == "zyx" and case.get("default_convention"):
+            R = np.asarray(mu.euler_to_rotationmatrix(arg))
+        else:
+            R = np.asarray(mu.euler_to_rotationmatrix(arg, convention=seq))
+    except Exception as e:
+        ctx.agree("euler_to_rotationmatrix", inp, "raised:" + type(e).__name__, "returned")
+        ctx.spec("Euler angles are converted (whatever their container)", inp, False,
+                 {"raised": type(e).__name__, "message": str(e)[:200]}, key="euler:raised")
+        return
     used = seq[:len(ang)]
     m = b2a(ctx.driver.call("c07.euler", seq=used, angles=[f2b(x) for x in ang])).reshape(3, 3)
+    if R.shape != (3, 3):
+        ctx.agree("euler_to_rotationmatrix: shape", inp, list(R.shape), [3, 3])
+        ctx.spec("one 3x3 matrix", inp, False, {"shape": R.shape}, key="euler:shape")
+        return
     ctx.agree("euler_to_rotationmatrix", inp, R, m, eq=lambda a, b: bool(np.abs(np.array(a) - np.array(b)).max() <= TOL_E32))
     oe, de = _eye_err(R[None])
     ctx.spec("orthonormal, det +1", inp, bool(oe[0] <= 1e-5 and de[0] <= 1e-5), {"R": R}, key="euler:proper")
@@ -396,26 +627,78 @@ def _case_euler(ctx, case):
              bool(np.abs(ref - R).max() <= TOL_E32), {"R": R, "ref": ref}, key="euler:convention")
     ctx.spec("float32 result", inp, R.dtype == np.float32, str(R.dtype), key="euler:dtype")
     # the middle angle decides gimbal lock: cos b = 0 for Tait-Bryan, sin b = 0 for proper Euler sequences
+    off_gimbal = False
     if len(ang) == 3:
         mid = math.radians(ang[1])
         off_gimbal = (abs(math.sin(mid)) if seq[0].lower() == seq[2].lower() else abs(math.cos(mid))) >= 0.08
         if not off_gimbal:
             ctx.count("euler:near-gimbal-lock(inverse not compared)")
     if len(ang) == 3 and off_gimbal:
-        back = np.asarray(mu.euler_from_rotationmatrix(R, convention=seq))
-        R2 = np.asarray(mu.euler_to_rotationmatrix(tuple(float(x) for x in back), convention=seq))
-        ctx.spec("to(from(R)) = R", inp, bool(np.abs(R2.astype(np.float64) - R).max() <= 1e-5), {"back": back, "R2": R2}, key="euler:to-from")
-        if seq == "zyx":
-            mb = b2a(ctx.driver.call("c07.eulerFrom", m=a2b(R.astype(np.float64).reshape(-1))))
+        R0 = np.array(R, dtype=np.float64)                     # pristine values
+        Rin = _relayout(R.astype(np.float32 if mdt == "f4" else np.float64), mlay)
+        ctx.count(f"euler:matrix={mdt}/{mlay}")
+        try:
+            back = np.asarray(mu.euler_from_rotationmatrix(Rin, convention=seq))
+            R2 = np.asarray(mu.euler_to_rotationmatrix(tuple(float(x) for x in back), convention=seq))
+        except Exception as e:
+            ctx.agree("euler_from_rotationmatrix", inp, "raised:" + type(e).__name__, "returned")
+            ctx.spec("rotation matrices are converted back (whatever their dtype / memory layout)", inp, False,
+                     {"raised": type(e).__name__, "message": str(e)[:200]}, key="euler:from-raised")
+            return
+        ok_b = back.shape == (3,)
+        ctx.spec("to(from(R)) = R", inp, bool(ok_b and R2.shape == (3, 3) and np.abs(R2.astype(np.float64) - R0).max() <= 1e-5),
+                 {"back": back, "R2": R2}, key="euler:to-from")
+        if ok_b and seq == "zyx":
+            mb = b2a(ctx.driver.call("c07.eulerFrom", m=a2b(R0.reshape(-1))))
             ctx.agree("euler_from_rotationmatrix", inp, back, mb, eq=lambda a, b: _ang_diff(a, b) <= TOL_DEG)
-        if case.get("canonical"):
+        if ok_b and case.get("canonical"):
             # angles inside the range the inverse returns (middle angle off gimbal lock): exact inverse
             ctx.spec("from(to(angles)) = angles", inp, _ang_diff(back, ang) <= TOL_DEG, {"back": back}, key="euler:from-to")
     ctx.count(f"euler:seq={seq}/n={len(ang)}")
     if any(abs(x) > 1e-9 for x in ang):
-        ctx.distinct(("euler", seq, [round(x, 4) for x in ang]))
+        ctx.distinct(("euler", seq, cont, mdt, mlay, [round(x, 4) for x in ang]))
     if case.get("sample"):
         ctx.sample({**inp, "R": R.tolist()})
+
+
+_TAIT_BRYAN = ["zyx", "xyz", "zxy", "yxz", "yzx", "xzy", "ZYX", "XYZ", "ZXY", "YXZ", "YZX", "XZY"]
+
+
+def _case_euler2(ctx, case):
+    """2x2 input of euler_from_rotationmatrix: the planar rotation by `angle` is the rotation about the third
+    axis of the convention string's frame (upper-left block of the 3x3 matrix)"""
+    import tme.matching_utils as mu
+    a, seq = float(case["angle"]), case.get("seq", "zyx")
+    mdt, mlay = case.get("mdtype", "f8"), case.get("mlayout", "C")
+    inp = {"kind": "euler2", "angle": a, "seq": seq, "mdtype": mdt, "mlayout": mlay}
+    c, s_ = math.cos(math.radians(a)), math.sin(math.radians(a))
+    M = _relayout(np.array([[c, -s_], [s_, c]], dtype=np.float32 if mdt == "f4" else np.float64), mlay)
+    M0 = np.array(M, dtype=np.float64)
+    E = np.eye(3)
+    E[:2, :2] = M0
+    try:
+        if seq == "zyx" and case.get("default_convention"):
+            back = np.asarray(mu.euler_from_rotationmatrix(M))
+        else:
+            back = np.asarray(mu.euler_from_rotationmatrix(M, convention=seq))
+        R2 = np.asarray(mu.euler_to_rotationmatrix(tuple(float(x) for x in back), convention=seq))
+    except Exception as e:
+        ctx.agree("euler_from_rotationmatrix(2x2)", inp, "raised:" + type(e).__name__, "returned")
+        ctx.spec("2x2 rotation matrices are converted", inp, False, {"raised": type(e).__name__, "message": str(e)[:200]},
+                 key="euler2:raised")
+        return
+    ok = back.shape == (3,) and R2.shape == (3, 3)
+    ctx.spec("2x2 input: to(from(M)) has M as its upper-left block and fixes the third axis", inp,
+             bool(ok and np.abs(R2.astype(np.float64) - E).max() <= 1e-5), {"back": back, "R2": R2, "M": M0}, key="euler2:to-from")
+    if ok and seq == "zyx":
+        ctx.spec("2x2 input, default convention: angles = (angle, 0, 0)", inp, _ang_diff(back, [a, 0.0, 0.0]) <= TOL_DEG,
+                 {"back": back}, key="euler2:angle")
+        mb = b2a(ctx.driver.call("c07.eulerFrom2", m=a2b(M0.reshape(-1))))
+        ctx.agree("euler_from_rotationmatrix(2x2)", inp, back, mb, eq=lambda x, y: _ang_diff(x, y) <= TOL_DEG)
+    ctx.count(f"euler2:seq={seq}")
+    ctx.count(f"euler2:matrix={mdt}/{mlay}")
+    if abs(a) > 1e-9:
+        ctx.distinct(("euler2", seq, mdt, mlay, round(a, 4)))
 
 
 def _case_cone(ctx, case):
@@ -425,14 +708,51 @@ def _case_cone(ctx, case):
     aa, asamp, ns = float(case.get("axis_angle", 360.0)), case.get("axis_sampling"), int(case.get("n_symmetry", 1))
     inp = {"kind": "cone", "cone_angle": ca, "cone_sampling": cs, "axis_angle": aa, "axis_sampling": asamp, "n_symmetry": ns}
     kw = dict(cone_angle=ca, cone_sampling=cs, axis_angle=aa, axis_sampling=asamp, n_symmetry=ns)
+    # how the numbers are handed over: Python floats (default), Python ints, numpy scalars
+    types = case.get("types")
+    if types:
+        inp["types"] = types
+        conv_t = {"int": lambda x: int(x) if float(x).is_integer() else x,
+                  "np.float64": np.float64, "np.float32": lambda x: np.float32(x) if float(np.float32(x)) == x else x,
+                  "np.int64": lambda x: np.int64(x) if float(x).is_integer() else x}[types]
+        for k in ("cone_angle", "cone_sampling", "axis_angle", "axis_sampling"):
+            if kw[k] is not None:
+                kw[k] = conv_t(kw[k])
+        if types == "np.int64":
+            kw["n_symmetry"] = np.int64(ns)
+    if case.get("omit_defaults"):          # leave the optional arguments out when they have their default value
+        inp["omit_defaults"] = True
+        for k, dflt in (("axis_angle", 360.0), ("axis_sampling", None), ("n_symmetry", 1)):
+            if kw[k] is None or (dflt is not None and kw[k] == dflt):
+                kw.pop(k)
+    # the default axis given explicitly (same direction, several containers)
+    vec = case.get("vector")
+    if vec:
+        inp["vector"] = vec
+        kw["vector"] = {"tuple": (1, 0, 0), "float-tuple": (1.0, 0.0, 0.0), "list": [1, 0, 0],
+                        "f8": np.array([1.0, 0.0, 0.0]), "f4": np.array([1, 0, 0], dtype=np.float32),
+                        "int-array": np.array([1, 0, 0]), "readonly": _relayout(np.array([1.0, 0.0, 0.0]), "readonly"),
+                        "scaled": (2.0, 0.0, 0.0), "scaled-small": [0.25, 0, 0]}[vec]
+    ctx.count("cone:types=" + (types or "float"))
+    ctx.count("cone:vector=" + (vec or "omitted"))
     conv = case.get("convention")
     tolm = TOL_CONE
+    import warnings
+    try:
+        with warnings.catch_warnings():
+            warnings.simplefilter("ignore")          # scipy's gimbal-lock notice for Euler output
+            out = mu.get_rotations_around_vector(**kw) if conv is None else mu.get_rotations_around_vector(convention=conv, **kw)
+    except Exception as e:
+        ctx.agree("get_rotations_around_vector", inp, "raised:" + type(e).__name__, "returned")
+        ctx.spec("cone sampling about the default axis returns rotations", inp, False,
+                 {"raised": type(e).__name__, "message": str(e)[:200]}, key="cone:raised")
+        return
     if conv is None:
-        R = np.asarray(mu.get_rotations_around_vector(**kw))
+        R = np.asarray(out)
     else:
         # Euler-angle output: the clauses are evaluated on the rotations these angles denote
         from scipy.spatial.transform import Rotation
-        E = np.asarray(mu.get_rotations_around_vector(convention=conv, **kw))
+        E = np.asarray(out)
         inp["convention"] = conv
         ok = E.ndim == 2 and E.shape[1] == 3
         ctx.spec("returns Euler triples", inp, ok, {"shape": E.shape}, key="cone:shape")
@@ -467,13 +787,15 @@ def _case_cone(ctx, case):
         ctx.spec("orthonormal, det +1", {**inp, "index": i}, bool(oe[i] <= 1e-9 and de[i] <= 1e-9), {"R": R[i]}, key="cone:proper")
         tilt = np.degrees(np.arccos(np.clip(R[:, 0, 0], -1, 1)))
         i = int(np.argmax(tilt))
-        ctx.spec("axis stays inside the requested cone", {**inp, "index": i}, bool(tilt[i] <= ca + 1e-6),
+        # matrices rebuilt from Euler angles carry ~1e-15 in R00, i.e. sqrt(2e-15) rad = 2.6e-6 deg at tilt 0
+        ctx.spec("axis stays inside the requested cone", {**inp, "index": i}, bool(tilt[i] <= ca + (1e-6 if conv is None else 1e-4)),
                  {"tilt": tilt[i], "R": R[i]}, key="cone:axis-inside")
         # the sampling really uses the cone: the largest tilt comes close to the requested half-angle
         ctx.count("cone:max-tilt/angle>=0.9" if ca == 0 or tilt.max() >= 0.9 * ca else "cone:max-tilt/angle<0.9")
     ctx.count(f"cone:nsym={ns}")
     ctx.count("cone:axis_sampling=" + ("default" if asamp is None else "given"))
-    ctx.distinct(("cone", ca, cs, aa, asamp, ns, conv))
+    ctx.count("cone:returned>10000" if len(R) > 10000 else "cone:returned<=10000")
+    ctx.distinct(("cone", ca, cs, aa, asamp, ns, conv, types, vec))
     if case.get("sample"):
         ctx.sample({**inp, "returned": len(R), "model_points": cnt["n"], "model_phi_steps": cnt["phiSteps"],
                     "max_tilt": float(tilt.max()) if ok_shape else None})
@@ -484,6 +806,18 @@ def _case_qr(ctx, case):
     import tme.matching_utils as mu
     dim, ang, seed = int(case["dim"]), float(case["angle"]), int(case["seed"])
     inp = {"kind": "qr", "dim": dim, "angle": ang, "seed": seed, "default_flag": bool(case.get("default_flag"))}
+    # how the numbers are handed over (values unchanged): Python int / numpy scalars for whole angles, numpy dim
+    atype = case.get("atype")
+    ang_arg, dim_arg = ang, dim
+    if atype:
+        inp["atype"] = atype
+        if atype == "np.float64":
+            ang_arg = np.float64(ang)
+        elif ang.is_integer():
+            ang_arg = int(ang) if atype == "int" else np.int64(ang)
+        if atype.startswith("np."):
+            dim_arg = np.int64(dim)
+    ctx.count("qr:atype=" + (atype or "float"))
     rec = {}
     orig = np.linalg.qr
 
@@ -496,9 +830,9 @@ def _case_qr(ctx, case):
     try:
         try:
             if case.get("default_flag") and dim != 3:
-                R = np.asarray(mu.get_rotation_matrices(ang, dim=dim))
+                R = np.asarray(mu.get_rotation_matrices(ang_arg, dim=dim_arg))
             else:
-                R = np.asarray(mu.get_rotation_matrices(ang, dim=dim, use_optimized_set=False))
+                R = np.asarray(mu.get_rotation_matrices(ang_arg, dim=dim_arg, use_optimized_set=False))
             raised = None
         except Exception as e:
             R, raised = None, type(e).__name__
@@ -533,7 +867,7 @@ def _case_qr(ctx, case):
     ctx.count(f"qr:dim={dim}")
     ctx.count("qr:use_optimized_set=" + ("default" if case.get("default_flag") and dim != 3 else "False"))
     if len(R) > 1:
-        ctx.distinct(("qr", dim, ang, seed))
+        ctx.distinct(("qr", dim, ang, seed, atype))
     if case.get("sample"):
         ctx.sample({**inp, "returned": len(R), "model_count": k})
 
@@ -636,8 +970,9 @@ def _case_cover(ctx, case):
         ctx.sample({**inp, "farthest_found_deg": best, "orientation": best_x.tolist(), "samples": M + nb})
 
 
-_CASES = {"table": _case_table, "setrows": _case_setrows, "request": _case_request, "quat": _case_quat,
-          "euler": _case_euler, "cone": _case_cone, "qr": _case_qr, "cover": _case_cover}
+_CASES = {"table": _case_table, "setrows": _case_setrows, "request": _case_request, "session": _case_session,
+          "quat": _case_quat, "euler": _case_euler, "euler2": _case_euler2, "cone": _case_cone, "qr": _case_qr,
+          "cover": _case_cover}
 
 
 def _do(ctx, case):
@@ -664,6 +999,41 @@ def _gen_requests(ctx, rng, n_random):
     cases += [{"kind": "request", "angle": a} for a in (0.0, -5.0, -62.8, 1e-9, 1e9, float("inf"))]
     for c in [c for c in cases if 20.0 < c["angle"] < 21.0][:1] + [c for c in cases if 50.0 < c["angle"] < 56.0][:1]:
         c["sample"] = True
+    # ---- the same kind of requests as numpy scalars and through every way of calling
+    mids = [float(Fraction(repr(lo)) / 2 + Fraction(repr(hi)) / 2) for lo, hi in zip(angs[:-1], angs[1:])]
+    typed = []
+    pool = [float(a) for a in angs] + [float(x) for x in rng.uniform(3.0, 70.0, size=max(8, n_random // 2))] + mids
+    for i, a in enumerate(pool):
+        t = ["np.float64", "np.float32", "np.float64", "np.float32"][i % 4]
+        if t == "np.float32" and min(abs(float(np.float32(a)) - m) for m in mids) < 1e-3:
+            t = "np.float64"          # single-precision arithmetic may legitimately tie at a midpoint
+        typed.append({"kind": "request", "angle": a, "type": t, "call": _REQ_CALLS[i % len(_REQ_CALLS)]})
+    for i, a in enumerate(list(range(4, 66, 5)) + [7, 90, 360]):
+        typed.append({"kind": "request", "angle": int(a), "int": True, "type": ["np.int64", "np.int32"][i % 2],
+                      "call": _REQ_CALLS[(i + 2) % len(_REQ_CALLS)]})
+    for i, a in enumerate([float(x) for x in rng.uniform(5.0, 70.0, size=len(_REQ_CALLS))]):
+        typed.append({"kind": "request", "angle": a, "call": _REQ_CALLS[i]})
+    return cases + typed
+
+
+def _gen_sessions(ctx, rng, n):
+    """sequences of requests in one process (answers served from the small and medium sets)"""
+    S = sets()
+    angs = sorted(a for k, _, a in S.table if S.state[k] == "ok" and S.meta[k][0] <= 20000)
+    if len(angs) < 3:
+        return []
+    cases = []
+    for j in range(n):
+        a, b, c = (float(x) for x in rng.choice(angs, size=3, replace=False))
+        jit = lambda x: float(x + rng.uniform(-0.15, 0.15))
+        steps = [{"angle": a}, {"angle": b}, {"angle": a},                      # again after another set was served
+                 {"angle": jit(a), "type": "np.float64"}, {"angle": jit(c), "call": "keyword"},
+                 {"angle": int(round(b)), "int": True}, {"angle": float(int(round(b)))},   # 40 and 40.0
+                 {"angle": a, "cwd": True}, {"angle": jit(b), "type": "np.float32", "call": "all-keyword"},
+                 {"angle": c}, {"angle": c}]
+        k = int(rng.integers(5, len(steps) + 1)) if j else len(steps)
+        order = list(range(len(steps))) if j == 0 else sorted(rng.choice(len(steps), size=k, replace=False).tolist())
+        cases.append({"kind": "session", "steps": [steps[i] for i in order]})
     return cases
 
 
@@ -672,7 +1042,35 @@ def _unit_quats(rng, n):
     return q / np.linalg.norm(q, axis=1)[:, None]
 
 
-def _gen_quats(ctx, rng, n):
+_INT_QUATS = [[1, 0, 0, 0], [0, 1, 0, 0], [0, 0, 1, 0], [0, 0, 0, 1], [-1, 0, 0, 0], [0, -1, 0, 0], [0, 0, -1, 0],
+              [0, 0, 0, -1]]
+
+
+def _special_quats(rng, n):
+    """half turns (scalar part exactly 0), rotations by tiny angles, negative scalar parts, sparse quaternions"""
+    out = []
+    for i in range(n):
+        ax = rng.normal(size=3)
+        ax /= np.linalg.norm(ax)
+        kind = i % 4
+        if kind == 0:
+            q = np.concatenate([[0.0], ax])
+        elif kind == 1:
+            h = float(10.0 ** rng.uniform(-9, -3))
+            q = np.concatenate([[math.cos(h)], math.sin(h) * ax])
+        elif kind == 2:
+            h = float(rng.uniform(math.pi / 2, math.pi))
+            q = np.concatenate([[math.cos(h)], math.sin(h) * ax])
+        else:
+            q = np.zeros(4)
+            j, k = rng.choice(4, size=2, replace=False)
+            t = float(rng.uniform(0, 2 * math.pi))
+            q[j], q[k] = math.cos(t), math.sin(t)
+        out.append(q)
+    return np.array(out)
+
+
+def _gen_quats(ctx, rng, n, big=1):
     cases = [{"kind": "quat", "q": np.array([[1, 0, 0, 0], [0, 1, 0, 0], [0, 0, 1, 0], [0, 0, 0, 1], [-1, 0, 0, 0],
                                              [0.5, 0.5, 0.5, 0.5], [0.5, -0.5, 0.5, -0.5],
                                              [math.sqrt(0.5), 0, math.sqrt(0.5), 0]], dtype=float)}]
@@ -681,10 +1079,31 @@ def _gen_quats(ctx, rng, n):
     for _ in range(max(2, n // 8)):
         q = _unit_quats(rng, 3) * rng.uniform(0.2, 3.0, size=(3, 1))
         cases.append({"kind": "quat", "q": q, "unit": False})
+    # ---- every memory layout x float dtype, random and special rotations, batches of 1 .. 7 rows
+    off = int(rng.integers(0, len(LAYOUTS)))
+    for i in range(max(2 * len(LAYOUTS), n // 2)):
+        lay = LAYOUTS[(i + off) % len(LAYOUTS)]
+        dt = "f4" if (i // len(LAYOUTS)) % 2 else "f8"
+        q = _special_quats(rng, int(rng.integers(1, 8))) if i % 3 == 0 else _unit_quats(rng, int(rng.integers(1, 8)))
+        cases.append({"kind": "quat", "q": q, "dtype": dt, "layout": lay})
+    # ---- integer arrays (the eight unit quaternions with integer entries)
+    for i, dt in enumerate(["i8", "i4", "i1", "i8"]):
+        idx = rng.permutation(len(_INT_QUATS))[:int(rng.integers(2, 9))]
+        cases.append({"kind": "quat", "q": np.array(_INT_QUATS, dtype=float)[idx], "dtype": dt,
+                      "layout": ["C", "F", "readonly", "strided"][i]})
+    # ---- batch sizes: none, one, more than 10 000
+    cases.append({"kind": "quat", "q": np.zeros((0, 4))})
+    cases.append({"kind": "quat", "q": np.zeros((0, 4)), "dtype": "f4", "layout": "F"})
+    for i in range(big):
+        cases.append({"kind": "quat", "gen_seed": int(rng.integers(0, 2**31)), "n": int(rng.integers(10001, 14000)),
+                      "dtype": ["f8", "f4"][i % 2], "layout": ["colview", "F", "memmap", "strided"][i % 4]})
     return cases
 
 
-_SEQS = ["zyx", "xyz", "zxz", "zyz", "yxz", "xzy", "ZYX", "XYZ", "ZXZ", "ZYZ", "YZX"]
+# all 24 sequences scipy knows: 6 Tait-Bryan + 6 proper Euler, extrinsic (lower case) and intrinsic (upper case)
+_SEQS = [a + b + c for a in "xyz" for b in "xyz" for c in "xyz" if a != b and b != c]
+_SEQS = _SEQS + [x.upper() for x in _SEQS]
+_MLAYOUTS = ["C", "F", "transposed", "strided", "reversed", "colview", "colstride", "offset", "readonly", "memmap", "bigendian"]
 
 
 def _gen_euler(ctx, rng, n):
@@ -698,7 +1117,31 @@ def _gen_euler(ctx, rng, n):
         if i % 7 == 0:
             a, b, c = float(round(a / 15) * 15), float(np.clip(round(b / 15) * 15, 15 if proper_euler else -75, 165 if proper_euler else 75)), float(round(c / 15) * 15)
             a, c = float(np.clip(a, -165, 165)), float(np.clip(c, -165, 165))
-        cases.append({"kind": "euler", "seq": seq, "angles": [a, b, c], "canonical": True})
+        case = {"kind": "euler", "seq": seq, "angles": [a, b, c], "canonical": True}
+        if i % 2 == 1:            # every second case: another container for the angles / layout for the matrix
+            case["container"] = _CONTAINERS[(i // 2) % len(_CONTAINERS)]
+            case["mlayout"] = _MLAYOUTS[(i // 2) % len(_MLAYOUTS)]
+            case["mdtype"] = ["f8", "f4"][(i // 2) % 2]
+        elif i % 4 == 0:
+            case["default_convention"] = True      # convention left out (zyx is the default)
+            case["container"] = _CONTAINERS[(i // 4) % len(_CONTAINERS)]
+            case["mlayout"] = _MLAYOUTS[(i // 4 + 3) % len(_MLAYOUTS)]
+        cases.append(case)
+    # every one of the 24 conventions at least twice whatever the budget
+    for j, seq in enumerate(_SEQS * 2):
+        proper_euler = seq[0].lower() == seq[2].lower()
+        b = float(rng.uniform(5, 175)) if proper_euler else float(rng.uniform(-85, 85))
+        cases.append({"kind": "euler", "seq": seq, "angles": [float(rng.uniform(-179.5, 179.5)), b, float(rng.uniform(-179.5, 179.5))],
+                      "canonical": True, "container": _CONTAINERS[j % len(_CONTAINERS)],
+                      "mlayout": _MLAYOUTS[j % len(_MLAYOUTS)], "mdtype": ["f4", "f8"][j % 2]})
+    # 2x2 matrices (planar rotations)
+    for j in range(max(len(_TAIT_BRYAN) + 4, n // 6)):
+        case = {"kind": "euler2", "angle": float(rng.uniform(-179.5, 179.5)) if j % 5 else float(rng.choice([0.0, 90.0, -90.0, 45.0, 179.0])),
+                "seq": "zyx" if j % 2 == 0 else _TAIT_BRYAN[(j // 2) % len(_TAIT_BRYAN)],
+                "mdtype": ["f8", "f4"][(j // 2) % 2], "mlayout": _MLAYOUTS[j % len(_MLAYOUTS)]}
+        if j % 4 == 0:
+            case["default_convention"] = True
+        cases.append(case)
     # angles outside the canonical range: only to(from(R)) = R is claimed
     for _ in range(max(3, n // 6)):
         cases.append({"kind": "euler", "seq": "zyx", "angles": [float(x) for x in rng.uniform(-720, 720, size=3)]})
@@ -729,6 +1172,36 @@ def _gen_cone(ctx, rng, n, big):
     if big:
         cases.append({"kind": "cone", "cone_angle": 45.0, "cone_sampling": 5.0, "axis_angle": 360.0, "axis_sampling": None,
                       "n_symmetry": 1, "max_model": 40000})
+    # ---- special values: sampling coarser than the cone / than the axis range, no axis range, symmetry finer than the
+    #      axis sampling, half a degree of cone, more than 10 000 rotations
+    special = [(30, 10, 40, 90, 1), (30, 10, 0.0, 10, 1), (30, 10, 360, 90, 8), (3, 10, 360, 720, 1), (0.5, 10, 360, 400, 1),
+               (25, 25, 25, 25, 1), (10, 4, 15, 30, 2), (40, 3, 360, 10, 1), (60, 4, 360, 12, 1), (30, 10, 360, 360, 1),
+               (30, 10, 360, 361, 1), (90, 90, 180, 90, 4)]
+    for a, sm, aa, asm, ns in special:
+        cases.append({"kind": "cone", "cone_angle": a, "cone_sampling": sm, "axis_angle": aa, "axis_sampling": asm, "n_symmetry": ns})
+    # ---- the numbers as Python ints / numpy scalars, optional arguments left out, the default axis given explicitly
+    types = ["int", "np.float64", "np.float32", "np.int64"]
+    vectors = ["tuple", "float-tuple", "list", "f8", "f4", "int-array", "readonly", "scaled", "scaled-small"]
+    base = grid + special
+    off = int(rng.integers(0, len(base)))
+    for i in range(max(3 * len(vectors), n)):
+        a, sm, aa, asm, ns = base[(off + i) % len(base)]
+        if (a / sm if sm else 0) > 12:      # keep these small
+            continue
+        case = {"kind": "cone", "cone_angle": a, "cone_sampling": sm, "axis_angle": aa, "axis_sampling": asm, "n_symmetry": ns}
+        if i % 2 == 0:
+            case["types"] = types[(i // 2) % len(types)]
+        if i % 3 != 2:
+            case["vector"] = vectors[i % len(vectors)]
+        if i % 4 == 1:
+            case["omit_defaults"] = True
+        cases.append(case)
+    # ---- Euler-angle output in more conventions (all 24 when `big`)
+    convs = _SEQS if big else [_SEQS[int(k)] for k in rng.choice(len(_SEQS), size=6, replace=False)]
+    for j, conv in enumerate(convs):
+        a, sm, aa, asm, ns = [(30, 10, 360, None, 1), (20, 5, 180, 30, 2), (75, 15, 360, 45, 1)][j % 3]
+        cases.append({"kind": "cone", "cone_angle": a, "cone_sampling": sm, "axis_angle": aa, "axis_sampling": asm,
+                      "n_symmetry": ns, "convention": conv})
     cases[0]["sample"] = True
     return cases
 
@@ -746,6 +1219,15 @@ def _gen_qr(ctx, rng, n):
     cases[0]["default_flag"] = True
     cases[4]["default_flag"] = True
     cases[2]["sample"] = True
+    # ---- whole angles as Python ints / numpy scalars, numpy dim, five dimensions, exactly one / two matrices
+    extra = [(2, 60.0, "int"), (2, 45.0, "np.int64"), (3, 90.0, "int"), (3, 72.0, "np.float64"), (4, 180.0, "np.int64"),
+             (5, 200.0, None), (5, 250.0, "np.float64"), (2, 180.0, "int"), (2, 181.0, None), (3, 285.0, None),
+             (2, 5.0, "int")]
+    for dim, ang, at in extra:
+        c = {"kind": "qr", "dim": dim, "angle": ang, "seed": int(rng.integers(0, 2**31)), "default_flag": bool(rng.random() < 0.5)}
+        if at:
+            c["atype"] = at
+        cases.append(c)
     return cases
 
 
@@ -769,8 +1251,10 @@ def run(ctx):
     # ---- requests
     for c in _gen_requests(ctx, rng, ctx.budget(40, 1200)):
         _do(ctx, c)
+    for c in _gen_sessions(ctx, rng, ctx.budget(3, 40)):
+        _do(ctx, c)
     # ---- quaternions, Euler angles, cone, QR
-    for c in _gen_quats(ctx, rng, ctx.budget(60, 3000)):
+    for c in _gen_quats(ctx, rng, ctx.budget(60, 3000), ctx.budget(2, 8)):
         _do(ctx, c)
     for c in _gen_euler(ctx, rng, ctx.budget(150, 10000)):
         _do(ctx, c)
@@ -819,12 +1303,14 @@ def search(ctx):
     if "setrows" in kinds or "quat" in kinds:
         for name, n, ang in S.readable():
             _do(ctx, {"kind": "setrows", "set": name, "rows": None})
-        for c in _gen_quats(ctx, rng, 800):
+        for c in _gen_quats(ctx, rng, 800, 4):
             _do(ctx, c)
-    if "request" in kinds:
+    if "request" in kinds or "session" in kinds:
         for c in _gen_requests(ctx, rng, 600):
             _do(ctx, c)
-    if "euler" in kinds:
+        for c in _gen_sessions(ctx, rng, 20):
+            _do(ctx, c)
+    if "euler" in kinds or "euler2" in kinds:
         for c in _gen_euler(ctx, rng, 2000):
             _do(ctx, c)
     if "cone" in kinds:
